@@ -144,7 +144,7 @@ def run(seed, tier, lean) -> Result:
                       'associations) and attack graphs from random histories (duplicate edges, self-loops, attackers, labels) are ingested through a recording '
                       'stand-in for the database driver; the recorded subgraph is compared with the reference (one node per asset / step, one relationship per '
                       'direction / edge) and the Lean model; the model is read back with get_model and compared; non-trivial = two assets linked by >= 2 associations or a self-link')
-    n = 150 if tier == 'quick' else 6000
+    n = 150 if tier == 'quick' else 900
     mcases, gcases = [], []
     for i in range(n):
         r = random.Random(rnd.getrandbits(48))
